@@ -35,7 +35,9 @@ SPEC = {
 
 PROBE_CONDS = ['contains("%s")', 'regex("%s")', 'not contains("%s")', '"%s" in description', 'is_probe', 'startswith("%s") or amount > 500', 'is_large',
                'contains("%s") and is_large',
-               'contains("%s") and amount > 10', 'normalized("%s")', 'len(description) > 5 and contains("%s")', 'amount > 100', 'description == "%s STORE"']
+               'contains("%s") and amount > 10', 'normalized("%s")', 'len(description) > 5 and contains("%s")', 'amount > 100', 'description == "%s STORE"',
+               # refunds and credits: the sign of --amount is part of the question
+               'contains("%s") and amount < 0', 'amount < 0', 'amount >= -5 and amount < 0', 'abs(amount) > 100 and amount < 0']
 PROBE_WORDS = ['NETFLIX', 'UBER', 'COSTCO', 'PROBE', 'STORE', 'ZZZ']
 
 
@@ -242,6 +244,12 @@ def judge_probe_csv(rec, rnd, tmp, k):
     if rnd.random() < .5:
         picks[0] = rnd.choice(CSV_PROBES[-4:])
     rows = 'Pattern,Merchant,Category,Subcategory,Tags\n' + ''.join('%s,M%d %s,Cat%d,Sub%d,%s\n' % (p, i, 'Shop', i, i, rnd.choice(['', 'a', 'a|b'])) for i, (p, _) in enumerate(picks))
+    if rnd.random() < .4:
+        # a tag-only row (no category) for the SAME pattern ahead of the categorizing rows: it adds its tag, it decides nothing
+        lines_ = rows.split('\n')
+        lines_.insert(1, '%s,Tagger,,,flagged' % picks[rnd.randrange(len(picks))][0])
+        rows = '\n'.join(lines_)
+        rec.count('legacy_csv_probes_with_a_tag_only_row_first')
     desc = rnd.choice(picks + picks[:1] + [rnd.choice(CSV_PROBES)])[1]
     amount = rnd.choice([5.0, 15.0, 150.0])
     root = os.path.join(tmp, 'pc%d' % k)
@@ -521,7 +529,7 @@ def judge_probe(rec, rnd, tmp, k):
         # derived from the same text by every command
         desc = rnd.choice(['SQ *', 'APLPAY ', 'aplpay ', 'sq *']) + rnd.choice(['QQQ NOTHING xx', 'blue bottle coffee', 'ZZTOP']) + rnd.choice(['', ' 77'])
         rec.count('description_probes_rewritten_by_a_transform')
-    amount = rnd.choice([5.0, 15.0, 150.0, 600.0])
+    amount = rnd.choice([5.0, 15.0, 150.0, 600.0, -30.0, -1.25, -600.0])
     settings = {'year': 2025, 'merchants_file': 'config/merchants.rules', 'rule_mode': mode,
                 'data_sources': [{'name': 'Main', 'file': 'data/main.csv', 'format': '{date:%Y-%m-%d},{description},{amount}'}]}
     for sub in ('a', 'b'):
@@ -611,6 +619,10 @@ def replay(rec, case):
     try:
         if case.get('kind') == 'gross-net-witness':
             gross_net_witness(rec, tmp)
+            return
+        if case.get('kind') == 'probe-csv-tagonly':
+            for k in range(12):
+                judge_probe_csv(rec, rnd, tmp, k)
             return
         for k in range(10):
             judge(rec, rnd, tmp, k)
